@@ -353,6 +353,31 @@ func (c *FnCtx) execLoop(st *State, node ast.Node, label string, bodyNode ast.No
 		c.addObl(&Obligation{Name: fmt.Sprintf("%s/loop%d/entry#%s", c.key, ord, clauseID(ec, i)), Kind: "loop-entry",
 			Descr: "assertion on reaching the loop", Pos: c.pos(node), Hyps: append([]string(nil), st.pc...), Goal: t, Clause: ec.Src})
 	}
+	for i, ec := range ls.Keep {
+		env := c.specEnvAt(st, pos)
+		t := c.specBool(env, ec.Expr)
+		c.addObl(&Obligation{Name: fmt.Sprintf("%s/loop%d/keep#%s", c.key, ord, clauseID(ec, i)), Kind: "loop-entry",
+			Descr: "assertion on reaching the loop (kept as a hypothesis)", Pos: c.pos(node), Hyps: append([]string(nil), st.pc...), Goal: t, Clause: ec.Src})
+		st.assume(t)
+	}
+	// dropping hypotheses is always sound: the invariant facts of a finished loop, once summarised by a `keep` clause,
+	// only slow the solver down
+	for _, m := range ls.Forget {
+		drop := map[string]bool{}
+		for _, t := range c.loopInvPC[m] {
+			drop[t] = true
+		}
+		if len(drop) == 0 {
+			continue
+		}
+		kept := st.pc[:0:0]
+		for _, t := range st.pc {
+			if !drop[t] {
+				kept = append(kept, t)
+			}
+		}
+		st.pc = kept
+	}
 	// 2. havoc
 	ms := newModSet()
 	c.collectMods(bodyNode, ms)
@@ -374,10 +399,15 @@ func (c *FnCtx) execLoop(st *State, node ast.Node, label string, bodyNode ast.No
 		h := st.clone()
 		c.havoc(h, ms, fmt.Sprintf("L%d", ord))
 		c.bumpAlloc(h)
+		n0 := len(h.pc)
 		for _, inv := range ls.Inv {
 			env := c.specEnvAt(h, pos)
 			h.assume(c.specBool(env, inv.Expr))
 		}
+		if c.loopInvPC == nil {
+			c.loopInvPC = map[int][]string{}
+		}
+		c.loopInvPC[ord] = append([]string(nil), h.pc[n0:]...)
 		if idx, ok := c.rangeIdx[node]; ok {
 			i := h.vars[idx]
 			h.assume(tAnd(tApp("<=", "0", i.T), tApp("<=", i.T, c.rangeLen[node])))
